@@ -20,6 +20,15 @@ pub struct Observer<Endpoint: Display> {
     message_id: Option<u16>,
 }
 
+#[cfg(feature = "verif_hooks")]
+impl<Endpoint: Display> Observer<Endpoint> {
+    /// Verification hook: confirmable notifications sent to this observer
+    /// since its registration or last acknowledgement.
+    pub fn verif_unacknowledged(&self) -> u32 {
+        u32::from(self.unacknowledged_messages)
+    }
+}
+
 /// An observed resource.
 pub struct Resource<Endpoint: Display> {
     pub observers: Vec<Observer<Endpoint>>,
